@@ -136,6 +136,14 @@ pub fn run_c05(p: &mut Prng, t: Tier, i: usize, sink: &mut Sink) {
         let pfx = format!("s{k}");
         let mut ops = base_ops(p, &pfx, &msg, order, comp, encryptor);
         ops.push(dec_op(&pfx, order, comp));
+        // history: the same key pair is used again, possibly in another configuration
+        if p.chance(1, 4) {
+            let order2 = *p.pick(&ORDERS);
+            let comp2 = p.chance(1, 2);
+            ops.push(json!({"op":"assert.eq","a":format!("{pfx}.pt"),"b":format!("{pfx}.msg"),"property":"C05","oracle":"O5.1-round-trip","entry":"sm2.encrypt+decrypt","class":"round-trip","what":"decrypt(encrypt(M)) != M"}));
+            ops.push(enc_op(&pfx, encryptor, order2, comp2, "new", rng_json(&uniform_script(p, 1))));
+            ops.push(dec_op(&pfx, order2, comp2));
+        }
         queues.push(ops);
     }
     for op in interleave(p, queues) {
@@ -283,6 +291,10 @@ pub fn run_c06(p: &mut Prng, _t: Tier, i: usize, sink: &mut Sink) {
         f.exec(dec());
         sink.done(f);
     }
+    // pristine copies: every faulted delivery is preceded and followed by the genuine one
+    w.exec(json!({"op":"copy","from":"a.ct","to":"a0.ct"}));
+    w.exec(json!({"op":"copy","from":"a.d","to":"a0.d"}));
+    let genuine = dec_op("a0", order, comp);
     let ct = match w.slots.get("a.ct").cloned() {
         Some(c) => c,
         None => {
@@ -423,13 +435,15 @@ pub fn run_c06(p: &mut Prng, _t: Tier, i: usize, sink: &mut Sink) {
     }
     for br in branches {
         let mut f = w.fork();
+        f.exec(genuine.clone());
         for op in br {
             f.exec(op);
         }
+        f.exec(genuine.clone());
         sink.done(f);
     }
     if i == 0 {
-        w.samples.push(json!({"base_schedule": w.history, "then": "each fault of the menu on a fork, followed by sm2.decrypt"}));
+        w.samples.push(json!({"base_schedule": w.history, "then": "on a fork: genuine delivery, one fault of the menu, faulted delivery, genuine delivery again"}));
     }
     sink.done(w);
 }
